@@ -53,8 +53,8 @@ func rootFieldOf(v ssa.Value, typ string) bool {
 func c13(r *core.Run) {
 	p := r.P
 	defer c13Extra(r, hashPkg)
-	r.Explanation = "Decides: the ring state (keys, ring, nodes) is touched only under the hash's lock (writes under the write lock); AddWithReplicas removes the node first, caps the replica count, sorts the key slice after the last append; AddWithWeight ≡ replicas·weight/100; add and remove hash the same virtual-node expression; Get mutates nothing, calls nothing nondeterministic, reports absence only for an empty ring or an empty slot and wraps its index modulo len(keys); cache.New and kv.NewStore add nodes with the configured weight."
-	r.NotDecided = "minimal disruption and proportional balance (properties of hash values over key populations)."
+	r.Explanation = "Decides: the ring state (keys, ring, nodes) is touched only under the hash's lock (writes under the write lock); AddWithReplicas removes the node first, caps the replica count, sorts the key slice after the last append; AddWithWeight ≡ replicas·weight/100; add and remove hash the same virtual-node expression; Get mutates nothing, calls nothing nondeterministic, reports absence only for an empty ring or an empty slot and wraps its index modulo len(keys); cache.New and kv.NewStore add nodes with the configured weight; every ring lookup in lib/store/kv and lib/store/cache (directly or through a function that returns the looked-up node, kvStore.getRedis) is made with the function's own key parameter unaltered, such a function returns exactly the looked-up node and reports absence only when the ring did, and a node is called with / keys are filed under it only for the very key it was looked up for."
+	r.NotDecided = "minimal disruption and proportional balance (properties of hash values over key populations); what a callback does with a looked-up node it is handed (cluster.withNode(key, fn) style) is only decided on the inlined program variants; calls on a node with a []string that is not built on the spot."
 
 	add := p.Func(hashPkg, "ConsistentHash", "AddWithReplicas")
 	rem := p.Func(hashPkg, "ConsistentHash", "Remove")
